@@ -114,7 +114,10 @@ func (h *httpHandler) ServeHTTP(w http.ResponseWriter, r *http.Request) {
 		current, err := output.Current, output.Error
 
 		if err != nil {
-			if ErrorCause(err) == context.Canceled {
+			// The request itself was cancelled: nobody is left to answer. A resolver
+			// that returns context.Canceled from a call of its own, while the request
+			// is alive, is a failing resolver like any other.
+			if ErrorCause(err) == context.Canceled && ctx.Err() != nil {
 				return nil, err
 			}
 
